@@ -381,7 +381,7 @@ class PythonToIrCompiler:
             lhs = self.builder.emit_load(var.value, var.ty)
             rhs = self.gen_expr(statement.value)
             if isinstance(statement.op, ast.FloorDiv):
-                value = self.gen_floor_div(lhs, rhs, var.ty)
+                value = self.gen_floor_div(statement, lhs, rhs, var.ty)
             else:
                 op = self.binop_map[type(statement.op)]
                 value = self.emit(
@@ -504,7 +504,7 @@ class PythonToIrCompiler:
         ty = a.ty
         op_typ = type(expr.op)
         if op_typ is ast.FloorDiv:
-            return self.gen_floor_div(a, b, ty)
+            return self.gen_floor_div(expr, a, b, ty)
         if op_typ in self.binop_map:
             op = self.binop_map[op_typ]
         else:
@@ -512,11 +512,14 @@ class PythonToIrCompiler:
         value = self.builder.emit_binop(a, op, b, ty)
         return value
 
-    def gen_floor_div(self, a, b, ty):
+    def gen_floor_div(self, node, a, b, ty):
         """Compile 'a // b'.
 
         The IR division truncates towards zero, python rounds down.
         """
+        if isinstance(ty, ir.FloatingPointTyp):
+            # The IR has no floor operation (yet).
+            self.error(node, "Floor division of floats is not supported")
         emit_binop = self.builder.emit_binop
         q = emit_binop(a, "/", b, ty)
         if ty.is_integer:
